@@ -8,7 +8,7 @@ From Coq Require Import String.
 Local Open Scope Z_scope.
 
 Definition src_entity (i : nat) (c : cls) (s : list letter) : entity :=
-  ENT i c (PR KCircularRecord s i [] None []).
+  ENT i c (PR KCircularRecord s i [] an_empty [] 0).
 
 Fixpoint src_modules (i : nat) (ms : list (cls * list letter)) : list entity :=
   match ms with
